@@ -31,7 +31,7 @@ def sweep(ctx):
     targets = [(base, ["std"], FLAGS if ctx.tier == "thorough" else FLAGS[:1]),
                (base, ["go/types", "net/http", "encoding/json", "text/template", "regexp"], FLAGS if ctx.tier == "thorough" else FLAGS[1:4]),
                (common.REPO, ["./..."] if ctx.tier == "thorough" else ["./inference/...", "./diagnostic/...", "./annotation/...", "./config/..."], FLAGS[:4] if ctx.tier == "thorough" else FLAGS[:1])]
-    for sub in ("c10", "c15", "det/m3", "det/m9", "det/m5", "c03/m11"):
+    for sub in ("c10", "c15", "det/m3", "det/m9", "det/m5", "c03/m11", "c07/shapes", "c02", "c08", "c20"):
         targets.append((os.path.join(common.VERIF, "corpus", sub), ["./..."], FLAGS[:4] if ctx.tier == "thorough" else FLAGS[:2]))
     for d, pats, flagsets in targets:
         for flags in flagsets:
